@@ -145,7 +145,7 @@ package vanguard
 // rwInv: the state machine invariant, established by handle() and preserved by every method.
 //@ pred rwInv(w) = validRW(w)
 //@ |  && (w.endWritten ==> w.headersFlushed && w.err != nil)
-//@ |  && (w.buf != nil ==> !w.headersFlushed)
+//@ |  && (w.buf != nil ==> !w.headersFlushed && owned(w.buf))
 //@ |  && (w.headersWritten && !w.endWritten ==> w.respMeta != nil)
 //@ |  && (w.headersFlushed ==> w.respMeta != nil)
 //@ |  && (w.w != nil ==> w.headersWritten)
@@ -164,6 +164,7 @@ package vanguard
 //@   modifies
 
 //@ func (*responseWriter).writeEnd
+//@   dispatch (io.Writer).Write: none
 //@   requires validRW(w) && end != nil && !w.endWritten
 //@   step rwStep(w)
 //@   track ends = (vanguard.clientProtocolHandler).encodeEnd
@@ -181,18 +182,22 @@ package vanguard
 //@   requires end != nil
 //@   modifies #LIB
 //@ func (grpcWebClientProtocol).encodeEnd
+//@   dispatch (io.Writer).Write: none
 //@   requires endCall(op, end, writer)
 //@   modifies #LIB
 //@ func (connectUnaryGetClientProtocol).encodeEnd
 //@   requires endCall(op, end, writer)
 //@   modifies #LIB
 //@ func (connectUnaryPostClientProtocol).encodeEnd
+//@   dispatch (io.Writer).Write: none
 //@   requires endCall(op, end, writer)
 //@   modifies #LIB
 //@ func (connectStreamClientProtocol).encodeEnd
+//@   dispatch (io.Writer).Write: none
 //@   requires endCall(op, end, writer)
 //@   modifies #LIB
 //@ func (restClientProtocol).encodeEnd
+//@   dispatch (io.Writer).Write: none
 //@   requires endCall(op, end, writer)
 //@   modifies #LIB
 
@@ -201,6 +206,7 @@ package vanguard
 //@ axiom errNotFound != nil
 
 //@ func (*responseWriter).flushHeaders
+//@   dispatch (io.Writer).Write: none
 //@   requires validRW(w) && (w.headersFlushed || (w.respMeta != nil && !w.endWritten))
 //@   requires (w.buf != nil ==> !w.headersFlushed) && (w.endWritten ==> w.err != nil)
 //@   step rwStep(w)
@@ -274,6 +280,7 @@ package vanguard
 //@ |      && (!w.writingEnvelope ==> w.current != nil) && (w.writingEnvelope ==> !w.currentIsTrailer) && (w.remainingBytes != -1 && !w.currentIsTrailer ==> !w.mustReleaseCurrent)))
 
 //@ func (*envelopingWriter).writeBytes
+//@   dispatch (io.Writer).Write: *limitWriter
 //@   requires validEW(w) && (w.writingEnvelope ==> 0 <= w.remainingBytes && w.remainingBytes <= 5) && (!w.writingEnvelope ==> w.current != nil)
 //@   step rwStep(w.rw)
 //@   ensures[C08] 0 <= r0 && r0 <= len(data) && (r1 == nil ==> r0 == len(data))
@@ -282,6 +289,7 @@ package vanguard
 //@   modifies w.env, owned(w.rw.buf), #RWB
 
 //@ func (*envelopingWriter).maybeInit
+//@   dispatch (io.Writer).Write: *limitWriter
 //@   requires validEW(w) && (!w.initialized ==> w.err == nil && w.current == nil && !w.writingEnvelope && !w.mustReleaseCurrent && !w.currentIsTrailer)
 //@   requires w.initialized ==> ewInv(w)
 //@   step rwStep(w.rw)
@@ -293,6 +301,7 @@ package vanguard
 //@   modifies w.initialized, w.writingEnvelope, w.remainingBytes, w.current, w.mustReleaseCurrent, w.err, $vanguard.limitWriter., $buf|owned, #RWB
 
 //@ func (*envelopingWriter).handleEnvelopeWritten
+//@   dispatch (io.Writer).Write: *limitWriter
 //@   requires validEW(w) && relInv(w)
 //@   requires w.err == nil && w.initialized && !w.currentIsTrailer && !w.mustReleaseCurrent
 //@   step rwStep(w.rw)
@@ -317,6 +326,7 @@ package vanguard
 //@   modifies w.mustReleaseCurrent, w.err, $buf|owned, #RWB
 
 //@ func (*envelopingWriter).Write
+//@   dispatch (io.Writer).Write: *limitWriter
 //@   requires ewInv(w) && (!w.initialized ==> w.err == nil && w.current == nil && !w.writingEnvelope && !w.mustReleaseCurrent && !w.currentIsTrailer)
 //@   step rwStep(w.rw)
 //@   ensures[C08] 0 <= n && n <= len(data) && (err == nil ==> n == len(data))
@@ -326,6 +336,7 @@ package vanguard
 //@   loop 1 decreases len(data), ite(w.writingEnvelope, 0, 1), ite(w.err == nil, 1, 0)
 
 //@ func (*envelopingWriter).Close
+//@   dispatch (io.Writer).Write: *limitWriter
 //@   requires ewInv(w)
 //@   step rwStep(w.rw)
 //@   ensures[C09] r0 == nil && old(w.remainingBytes) > 0 && !(old(w.writingEnvelope) && old(w.remainingBytes) == 5) ==> w.rw.endWritten
@@ -401,7 +412,12 @@ package vanguard
 
 //@ pred validTW(w) = w != nil && rwInv(w.rw) && prepOK(w.rw.op) && w.msg != nil && w.w != nil && sinkOK(w.w, w.rw) && !typeIs(w.w, *bytes.Buffer)
 //@ |  && (w.rw.respMeta != nil || w.rw.op.serverEnveloper != nil)
-//@ pred twInv(w) = validTW(w) && (w.err == nil && w.buffer != nil ==>
+//@ pred twInv(w) = validTW(w)
+//@ |  && (w.msg.buf != nil ==> w.msg.buf != w.rw.buf) && (w.buffer != nil ==> w.buffer != w.rw.buf)
+//@ |  && (w.latestEnvelope.trailer ==> w.rw.op.serverEnveloper != nil)
+//@ |  && (w.err != nil ==> w.rw.endWritten || (w.buffer == nil && w.expectingBytes == 0))
+//@ |  && (w.err == nil && w.buffer == nil ==> !w.writingEnvelope && w.msg.buf == nil && w.expectingBytes != -1)
+//@ |  && (w.err == nil && w.buffer != nil ==>
 //@ |    w.buffer == w.msg.buf && owned(w.buffer)
 //@ | && (w.expectingBytes == -1 || (w.expectingBytes >= 0 && blen(w.buffer) <= w.expectingBytes && w.rw.op.serverEnveloper != nil))
 //@ | && (w.writingEnvelope ==> w.expectingBytes == 5 && blen(w.buffer) < 5)
@@ -413,13 +429,16 @@ package vanguard
 //@   opt inline
 
 //@ func (*transformingWriter).flushMessage
-//@   requires validTW(w) && w.buffer != nil && w.buffer == w.msg.buf && w.err == nil && owned(w.buffer)
+//@   dispatch (io.Writer).Write: *limitWriter
+//@   requires validTW(w) && w.buffer != nil && w.buffer == w.msg.buf && w.err == nil && owned(w.buffer) && w.buffer != w.rw.buf
 //@   requires w.latestEnvelope.trailer ==> w.rw.op.serverEnveloper != nil
 //@   requires[C03] !w.rw.endWritten
 //@   step rwStep(w.rw)
 //@   track flushed = (*responseWriter).flushMessage
 //@   atcall[C03] (io.Writer).Write: !w.rw.endWritten
 //@   ensures[C16] err == nil && !w.latestEnvelope.trailer ==> flushed == 1
+//@   ensures[C03] err == nil && !w.latestEnvelope.trailer ==> !w.rw.endWritten
+//@   ensures (w.buffer != nil ==> w.buffer != w.rw.buf) && (w.msg.buf != nil ==> w.msg.buf != w.rw.buf)
 //@   ensures[C09,C03] err == nil && w.latestEnvelope.trailer ==> w.rw.endWritten && w.err != nil
 //@   ensures err == nil && !w.latestEnvelope.trailer ==> w.err == nil && w.buffer != nil && w.buffer == w.msg.buf && blen(w.buffer) == 0 && owned(w.buffer)
 //@   ensures err == nil && !w.latestEnvelope.trailer ==> (w.rw.op.serverEnveloper != nil ==> w.expectingBytes == 5 && w.writingEnvelope) && (w.rw.op.serverEnveloper == nil ==> w.expectingBytes == -1)
@@ -429,46 +448,27 @@ package vanguard
 //@   ensures (w.rw.respMeta != nil || w.rw.op.serverEnveloper != nil)
 //@   ensures w.rw == old(w.rw) && (old(w.rw.endWritten) ==> w.rw.endWritten)
 //@   ensures w.latestEnvelope.trailer == old(w.latestEnvelope.trailer)
-//@   modifies w.err, w.buffer, w.expectingBytes, w.writingEnvelope, $vanguard.message., owned(w.buffer), owned(w.msg.buf), owned(w.rw.buf), blen(w.buffer), blen(w.msg.buf), blen(w.rw.buf), blen(unbox(w.w, *limitWriter).buf), #RWEND
+//@   modifies w.err, w.buffer, w.expectingBytes, w.writingEnvelope, $vanguard.message., owned(w.buffer), owned(w.msg.buf), owned(w.rw.buf), $buf|len, #RWEND
+
+// twRest: between calls no complete unit is pending (anything complete is processed at once).
+//@ pred twRest(w) = twInv(w)
+//@ |  && (w.err == nil && w.buffer != nil && w.expectingBytes >= 0 ==> blen(w.buffer) < w.expectingBytes)
 
 //@ func (*transformingWriter).Write
-//@   requires twInv(w)
+//@   requires twRest(w)
+//@   requires[C03] !w.rw.endWritten || len(data) == 0
 //@   step rwStep(w.rw)
 //@   ensures[C08] 0 <= n && n <= len(data) && (err == nil ==> n == len(data))
-//@   ensures twInv(w) && w.rw == old(w.rw) && (old(w.rw.endWritten) ==> w.rw.endWritten)
+//@   ensures twRest(w) && w.rw == old(w.rw)
 //@   loop 1 invariant[C08] written >= 0 && written + len(data) == len(old(data))
 //@   loop 1 invariant twInv(w) && (w.err == nil ==> w.buffer != nil && w.expectingBytes != -1) && w.rw == old(w.rw) && rwStep(w.rw)
+//@   loop 1 invariant[C03] old(w.rw.endWritten) ==> len(data) == 0 && (w.err == nil ==> blen(w.buffer) < w.expectingBytes)
+//@   loop 1 invariant[C03] !old(w.rw.endWritten) && w.err == nil ==> !w.rw.endWritten
 //@   loop 1 decreases len(data), ite(w.writingEnvelope, 0, 1), ite(w.err == nil, 1, 0)
 
-// ------------------------------------------------------------------------------------------------
-// C15 / C14 / C10: compression pool
-
-//@ func (*compressionPool).compress
-//@   requires dst != nil && src != nil
-//@   requires[C14] owned(dst) && owned(src)
-//@   track gets = (*sync.Pool).Get
-//@   track puts = (*sync.Pool).Put
-//@   track resets = (connectrpc.com/connect.Compressor).Reset
-//@   ensures[C15] p != nil ==> gets == 1 && puts == 1 && resets == 1
-//@   ensures[C15] p == nil ==> gets == 0 && puts == 0
-//@   modifies blen(dst), blen(src)
-
-//@ func (*compressionPool).decompress
-//@   requires dst != nil && src != nil
-//@   requires[C14] owned(dst) && owned(src)
-//@   track gets = (*sync.Pool).Get
-//@   track puts = (*sync.Pool).Put
-//@   track resets = (connectrpc.com/connect.Decompressor).Reset
-//@   ensures[C15] p != nil ==> gets == 1 && puts == 1 && resets == 1
-//@   ensures[C15] p == nil ==> gets == 0 && puts == 0
-//@   atcall[C15] (*sync.Pool).Put: resets == 1
-//@   modifies blen(dst), blen(src)
-
-//@ func (*bufferPool).Get
-//@   requires b != nil
-//@   ensures[C15] result != nil && blen(result) == 0
-//@ func (*bufferPool).Put
-//@   requires b != nil && buffer != nil
-//@ func (*bufferPool).Wrap
-//@   requires orig != nil
-//@   ensures[C15] result != nil && blen(result) == len(data)
+//@ func (*transformingWriter).Close
+//@   requires twRest(w)
+//@   step rwStep(w.rw)
+//@   ensures[C09] old(w.expectingBytes) >= 0 && old(w.buffer) != nil && old(blen(w.buffer)) > 0 ==> w.rw.endWritten
+//@   ensures[C09] w.err != nil && w.buffer == nil
+//@   ensures rwInv(w.rw) && w.rw == old(w.rw)
